@@ -81,6 +81,9 @@ def existsArg (v : V) : Bool :=
   | .f64 b => match f64Val b with
     | .fin q => q != 0
     | _ => true       -- NaN != 0 and ±Inf != 0 are true in Go
+  | .dec h l => match decParts h l with   -- `big, _, err := n.BigInt(); err != nil || big.Sign() != 0`
+    | .fin _ c _ => c != 0                -- ±0 of any exponent (incl. the "11" form, read as coefficient 0)
+    | _ => true                           -- NaN, ±Inf: BigInt returns an error
   | _ => true
 
 /-- matchExists -/
@@ -170,19 +173,20 @@ def matchType (d : Doc) (path : String) (v : V) : Res Unit :=
         else if want.contains field.typ then .ok ()
         else notMatched
 
+/-- matchAll's loop: every member as an equality condition (`matchComp … "$eq" path item`);
+    the first failure (NotMatched or error) is returned. -/
+def allLoop (d : Doc) (path : String) : List V → Res Unit
+  | [] => .ok ()
+  | item :: r =>
+    match matchComp d "$eq" path item with
+    | .error e => .error e
+    | .ok _ => allLoop d path r
+
 /-- matchAll -/
 def matchAll (d : Doc) (path : String) (v : V) : Res Unit :=
-  matchUnwind d path false true fun field =>
-    match v with
-    | .arr array =>
-      if array.isEmpty then notMatched
-      else
-        let viaArr : Bool := match field with
-          | .arr arr => array.all fun value => arr.any fun el => V.cmp value el == .eq
-          | _ => false
-        if viaArr then .ok ()
-        else if array.all (fun item => V.cmp field item == .eq) then .ok () else notMatched
-    | _ => .error .err
+  match v with
+  | .arr array => if array.isEmpty then notMatched else allLoop d path array
+  | _ => .error .err
 
 /-- the integer argument of $size / $push modifiers: int32, int64 or whole-valued double. -/
 def intArg (v : V) : Res Int :=
